@@ -96,7 +96,7 @@ func (b *builder) genConfigs() {
 	if p.NCfg > 0 {
 		n = 1 + r.Intn(p.NCfg)
 	}
-	dirs := []string{"__snapshots__", "snaps_dir", "nested/deep/__snapshots__", "/abs/snapdir", "../up/__snapshots__", ".snapshots"}
+	dirs := []string{"__snapshots__", "snaps_dir", "nested/deep/__snapshots__", "/abs/snapdir", "../up/__snapshots__", ".snapshots", "__snaps[v2]__"}
 	names := []string{"shared", "custom_name", "zz_world_a_test", "my.snap.file", "data"}
 	exts := []string{".txt", ".json", ".snap", ".yaml", ""}
 	for i := 0; i < n; i++ {
@@ -119,6 +119,16 @@ func (b *builder) genConfigs() {
 		}
 		if r.Bool(p.JSONOpt) {
 			c.JSON = &scen.JSONOpts{Width: []int{0, 20, 80}[r.Intn(3)], Indent: []string{" ", "  ", "\t", ""}[r.Intn(4)], SortKeys: r.Bool(0.5)}
+			if r.Bool(0.5) && len(b.cfgs) > 0 && b.cfgs[len(b.cfgs)-1].JSON != nil {
+				// the same option value as the previous Config (the harness then passes the very
+				// same option function to both WithConfig calls) ...
+				prev := *b.cfgs[len(b.cfgs)-1].JSON
+				c.JSON = &prev
+			}
+			if r.Bool(0.3) {
+				// ... and sometimes a second JSON option that overrides it
+				c.JSON2 = &scen.JSONOpts{Width: []int{0, 20, 80}[r.Intn(3)], Indent: []string{" ", "  ", "\t", ""}[r.Intn(4)], SortKeys: r.Bool(0.5)}
+			}
 		}
 		b.cfgs = append(b.cfgs, c)
 	}
@@ -134,7 +144,7 @@ func (b *builder) genMatchers(api string, in scen.Value) []scen.MatcherSpec {
 	if yamlAPI {
 		prefix = "$."
 	}
-	paths := []string{"a", "b", "name", "created", "count", "ok", "inner", "inner.id", "user", "age", "missing", "nope.deeper", "k"}
+	paths := []string{"a", "b", "name", "created", "count", "ok", "inner", "inner.id", "user", "age", "missing", "nope.deeper", "k", "nested.z", "nested.k", "tags", "nested"}
 	n := 1 + r.Intn(3)
 	var ms []scen.MatcherSpec
 	for i := 0; i < n; i++ {
@@ -239,6 +249,14 @@ func (b *builder) genNode(name, full string, site, depth int) *scen.TestNode {
 			}
 			used[sn] = true
 			n.Steps = append(n.Steps, scen.Step{Kind: "sub", Sub: b.genNode(sn, full+"/"+sn, site, depth+1)})
+			if sn == "sub" && r.Bool(0.4) {
+				// a sibling whose name extends this one by a byte that sorts before '/'
+				sib := []string{"sub.1", "sub-2"}[r.Intn(2)]
+				if !used[sib] {
+					used[sib] = true
+					n.Steps = append(n.Steps, scen.Step{Kind: "sub", Sub: b.genNode(sib, full+"/"+sib, site, depth+1)})
+				}
+			}
 			continue
 		}
 		n.Steps = append(n.Steps, scen.Step{Kind: "call", Call: b.genCall(full, depth)})
@@ -472,6 +490,28 @@ func (b *builder) edit(prog []*scen.TestNode) []*scen.TestNode {
 		for _, n := range out {
 			collect(n)
 		}
+		addSkip := func(n *scen.TestNode) {
+			st := scen.Step{Kind: "skip", Skip: kinds[r.Intn(3)]}
+			n.Steps = append([]scen.Step{st}, n.Steps...)
+		}
+		for _, n := range nodes {
+			// a test and the sibling whose name extends it ("sub", "sub.1") both skipped
+			var a, bb *scen.TestNode
+			for i := range n.Steps {
+				if n.Steps[i].Kind == "sub" {
+					switch n.Steps[i].Sub.Name {
+					case "sub":
+						a = n.Steps[i].Sub
+					case "sub.1", "sub-2":
+						bb = n.Steps[i].Sub
+					}
+				}
+			}
+			if a != nil && bb != nil && r.Bool(0.5) {
+				addSkip(a)
+				addSkip(bb)
+			}
+		}
 		k := 1 + r.Intn(2)
 		for ; k > 0 && len(nodes) > 0; k-- {
 			n := nodes[r.Intn(len(nodes))]
@@ -543,6 +583,15 @@ func (b *builder) runPattern(prog []*scen.TestNode) string {
 				return "^" + strings.Replace(subs[r.Intn(len(subs))], "/", "$/^", 1) + "$|^" + u + "$"
 			}
 			return "^" + t + "$/sub|^" + u + "$"
+		},
+		func() string {
+			// the shallow alternative first, the deeper one second
+			u := tops[r.Intn(len(tops))]
+			if len(subs) > 0 {
+				sp := subs[r.Intn(len(subs))]
+				return u + "|" + sp
+			}
+			return u + "|" + t + "/sub"
 		},
 		func() string { return "Sub|1" },
 		func() string { return "1" },
@@ -667,6 +716,8 @@ func World(seed uint64, index int, p *Params) *check.World {
 			{Path: d + "/notes.txt", Data: []byte("keep me\n")},
 			{Path: d + "/README", Data: []byte("x")},
 			{Path: d + "/subdir", IsDir: true},
+			{Path: d + "/old.snapshots", IsDir: true},
+			{Path: d + "/old.snapshots/kept.snap", Data: []byte("\n[TestOld - 1]\nold\n---\n")},
 			{Path: d + "/subdir/inner.snap", Data: []byte("\n[TestZ - 1]\nz\n---\n")},
 			{Path: d + "/old_stale.snap", Data: []byte("\n[TestGone - 1]\nold\n---\n")},
 			{Path: d + "/TestGone_1.snap", Data: []byte("standalone leftover")},
